@@ -235,9 +235,12 @@ package rsm
 //@    gUpdates == old(gUpdates) + 1 && gLastIndex == e.Index && s.sessOf(e.ClientID).gapplied[e.SeriesID] &&
 //@    e.SeriesID in s.sessOf(e.ClientID).History && s.sessOf(e.ClientID).History[e.SeriesID] == result0
 
+// gSessionOps: number of register / unregister entries decided by the session table
+//@ ghost var gSessionOps int
 //@ func (s *StateMachine) registerSession [C05 C11]
 //@ requires s.sessions != nil && s.sessions.lru != nil && s.index < MaxUint64
-//@ modifies held(s.mu), s.index, s.term, s.sessions.lru.sessions.gsess
+//@ modifies held(s.mu), s.index, s.term, s.sessions.lru.sessions.gsess, gSessionOps
+//@ ghostset gSessionOps := old(gSessionOps) + 1
 //@ ensures s.index == e.Index && old(s.index) + 1 == e.Index && gUpdates == old(gUpdates)
 //@ ensures old(s.sessOf(e.ClientID) != nil) ==> result.Value == 0 && (forall k uint64 :: s.sessOf(k) == old(s.sessOf(k)))
 //@ ensures !old(s.sessOf(e.ClientID) != nil) ==> result.Value == e.ClientID && s.sessOf(e.ClientID) != nil && s.sessOf(e.ClientID).J() &&
@@ -245,7 +248,8 @@ package rsm
 
 //@ func (s *StateMachine) unregisterSession [C05 C11]
 //@ requires s.sessions != nil && s.sessions.lru != nil && s.index < MaxUint64
-//@ modifies held(s.mu), s.index, s.term, s.sessions.lru.sessions.gsess
+//@ modifies held(s.mu), s.index, s.term, s.sessions.lru.sessions.gsess, gSessionOps
+//@ ghostset gSessionOps := old(gSessionOps) + 1
 //@ ensures s.index == e.Index && old(s.index) + 1 == e.Index && gUpdates == old(gUpdates)
 //@ ensures old(s.sessOf(e.ClientID) != nil) ==> result.Value == e.ClientID && s.sessOf(e.ClientID) == nil
 //@ ensures !old(s.sessOf(e.ClientID) != nil) ==> result.Value == 0
@@ -637,7 +641,15 @@ package rsm
 //@ nobounds
 //@ modifies *s, gDecResp, gDecClient
 //@ ensures result == nil && v == V2 ==> s.RespondedUpTo == gDecResp && s.ClientID == gDecClient
+// io.ReadFull: io.EOF only if no byte was read, io.ErrUnexpectedEOF only after some but not all bytes, nil only
+// with the buffer full. gLastReadN: how many bytes the last ReadFull delivered
+//@ ghost var gLastReadN int
 //@ extern io ReadFull
+//@ modifies elems(buf), gLastReadN
+//@ ensures 0 <= n && n <= len(buf) && (err == nil <==> n == len(buf))
+//@ ensures err == sentinel("io", "EOF") ==> n == 0
+//@ ensures err == sentinel("io", "ErrUnexpectedEOF") ==> n > 0
+//@ ghostset gLastReadN := n
 
 //@ func (rec *lrusession) load [C05 C08]
 //@ noframe
@@ -659,7 +671,6 @@ package rsm
 //@ func mustGetChecksum [C14]
 //@ trusted returns the hash implementation of the checksum type
 //@ ensures result != nil
-//@ extern io ReadFull
 
 // a block whose checksum does not match is never made available to Read (fail-stop instead)
 //@ func (br *blockReader) readBlock [C14]
@@ -731,12 +742,17 @@ package rsm
 //@ ghostset gCCHandled := true
 //@ ensures gMemberDecisions == old(gMemberDecisions) + 1
 //@ iface (n INode) ApplyUpdate
-//@ func (s *StateMachine) handleEntry [C07]
+// C05: the session table is replicated state of its own -- it is NOT part of what an on-disk state machine
+// persists -- so every committed register / unregister entry is decided by the session table, also when
+// its index is at or below the index the on-disk state machine reported at start-up (only the user
+// Update of such entries is skipped)
+//@ func (s *StateMachine) handleEntry [C07 C05]
 //@ noframe
 //@ nobounds
+//@ ensures e.Type != pb.ConfigChangeEntry && len(e.Cmd) == 0 && e.ClientID != 0 && (e.SeriesID == 18446744073709551614 || e.SeriesID == 18446744073709551615) ==> gSessionOps == old(gSessionOps) + 1 [C05]
 //@ requires !gCCHandled && s.sessions != nil && s.sessions.lru != nil && s.node != nil && s.sm != nil && s.index < MaxUint64 && s.members.wfm() && s.members.disjoint()
 //@ requires s.sessOf(e.ClientID) != nil ==> s.sessOf(e.ClientID).J()
-//@ modifies gCCHandled, gMemberDecisions
+//@ modifies gCCHandled, gMemberDecisions, gSessionOps
 //@ ensures e.Type == pb.ConfigChangeEntry && result == nil ==> gCCHandled
 
 // ---------------------------------------------------------------- streamed chunks own their bytes (C14)
@@ -883,3 +899,18 @@ package rsm
 //@ func (ds *SessionManager) SaveSessions [C05 C11]
 //@ trusted serialises the LRU session table
 //@ requires held(0 + ds.gmu) != 0
+
+// ---------------------------------------------------------------- recognising a shrunk snapshot (C14)
+// From the property: whatever a state machine wrote is read back. A snapshot image is classified as shrunk
+// (its payload is then NOT loaded) only if its session table is empty and not a single byte follows it.
+//@ func IsShrunkSnapshotFile [C14]
+//@ noframe
+//@ nobounds
+//@ modifies gLastReadN
+//@ ensures shrunk ==> gLastReadN == 0
+// the stream validator's header check reads the checksum from the four bytes that directly follow the header
+// record (len | record | crc | padding) -- reading it from anywhere else finds the zero padding, which
+// switches the check off
+//@ func getHeaderFromFirstChunk [C14]
+//@ nobounds
+//@ ensures result2 ==> ptr(result0) == ptr(data) + 8 && ptr(result1) == ptr(result0) + len(result0) && len(result1) == 4
